@@ -97,6 +97,10 @@ func CheckSpatialIdsArrayOverlap(spatialIds1 []string, spatialIds2 []string) (bo
 		if errAltConversion != nil {
 			return false, fmt.Errorf("%w @spatialId2[%v] = %v", errAltConversion, indexSpatialId2, spatialId2)
 		}
+		if len(spatialIds1) == 0 {
+			// 比較対象が空の場合は重複なし(空の木に対する検索は行わない)
+			continue
+		}
 		result := tr.IsOverlap(tree.Indexs{convertedFIndex2, int64(x2), int64(y2)}, tree.ZoomSetLevel(zoom2))
 		if result {
 			// 重複判定時、trueとnilを返却
